@@ -223,6 +223,10 @@ func goValue(fr *frame, v value) (interface{}, bool) {
 		if isBasic && (isSym(v.v) || !isConcreteScalar(v.v)) {
 			return goValue(fr, v.v)
 		}
+		if n, ok := v.t.(*types.Named); ok && isBasic && n.Obj().Pkg() != nil && n.Obj().Pkg().Path() == "runtime" {
+			// recovered run-time errors: the engine stores their full text in a runtime.errorString
+			return goValue(fr, v.v)
+		}
 		for _, m := range []string{"Error", "String"} {
 			if fn := findMethod(fr.i, v.t, m); fn != nil && fn.Signature.Params().Len() == 0 && fn.Signature.Results().Len() == 1 {
 				if b, ok := fn.Signature.Results().At(0).Type().Underlying().(*types.Basic); ok && b.Kind() == types.String {
